@@ -75,3 +75,595 @@ pub struct VerifStreamsProbe {
     pub recv_entries: usize,
     pub send_entries: usize,
 }
+
+// ---------------------------------------------------------------------------------------------
+// Codec wrappers (H3): thin, add-only access to crate-private encoders/decoders for the codec
+// round-trip / differential / totality check (C10). Every function below calls the library's own
+// codec item; no wire logic is re-implemented here except where the library writes a frame inline
+// in its packet builder (`buf.write(FrameType::X); buf.write_var(..)`), which is mirrored verbatim.
+// ---------------------------------------------------------------------------------------------
+pub mod codec {
+    use bytes::{BufMut, Bytes, BytesMut};
+
+    use crate::{
+        ConnectionId, Dir, ResetToken, StreamId, VarInt,
+        coding::{BufExt, BufMutExt, Codec},
+        crypto,
+        frame::{self, Frame, FrameType},
+        packet::{
+            FixedLengthConnectionIdParser, Header, InitialHeader, LongType, PacketNumber,
+            PartialDecode,
+        },
+        range_set::ArrayRangeSet,
+        transport_error::Code,
+    };
+
+    /// `VarInt::size`
+    pub fn varint_size(v: VarInt) -> usize {
+        v.size()
+    }
+
+    // ---- packet numbers ----
+
+    fn pn_parts(pn: PacketNumber) -> (usize, u64) {
+        match pn {
+            PacketNumber::U8(x) => (1, u64::from(x)),
+            PacketNumber::U16(x) => (2, u64::from(x)),
+            PacketNumber::U24(x) => (3, u64::from(x)),
+            PacketNumber::U32(x) => (4, u64::from(x)),
+        }
+    }
+
+    fn pn_make(len: usize, truncated: u64) -> PacketNumber {
+        match len {
+            1 => PacketNumber::U8(truncated as u8),
+            2 => PacketNumber::U16(truncated as u16),
+            3 => PacketNumber::U24(truncated as u32 & 0x00ff_ffff),
+            4 => PacketNumber::U32(truncated as u32),
+            _ => panic!("verif: packet number length must be 1..=4"),
+        }
+    }
+
+    /// `PacketNumber::new(n, largest_acked)` as (encoded length, truncated value)
+    pub fn pn_new(n: u64, largest_acked: u64) -> (usize, u64) {
+        pn_parts(PacketNumber::new(n, largest_acked))
+    }
+
+    /// `PacketNumber::encode`
+    pub fn pn_encode(len: usize, truncated: u64, out: &mut Vec<u8>) {
+        pn_make(len, truncated).encode(out)
+    }
+
+    /// `PacketNumber::decode(len, ..)`: (truncated value, bytes consumed)
+    pub fn pn_decode(len: usize, bytes: &[u8]) -> Result<(u64, usize), String> {
+        let mut r = bytes;
+        let pn = PacketNumber::decode(len, &mut r).map_err(|e| e.to_string())?;
+        let (l, t) = pn_parts(pn);
+        debug_assert_eq!(l, len);
+        Ok((t, bytes.len() - r.len()))
+    }
+
+    /// `PacketNumber::decode_len(first_byte)`
+    pub fn pn_decode_len(tag: u8) -> usize {
+        PacketNumber::decode_len(tag)
+    }
+
+    /// `PacketNumber::expand(expected)`
+    pub fn pn_expand(len: usize, truncated: u64, expected: u64) -> u64 {
+        pn_make(len, truncated).expand(expected)
+    }
+
+    // ---- connection IDs ----
+
+    /// `ConnectionId::decode_long`: (cid, bytes consumed)
+    pub fn cid_decode_long(bytes: &[u8]) -> Option<(ConnectionId, usize)> {
+        let mut r = bytes;
+        let cid = ConnectionId::decode_long(&mut r)?;
+        Some((cid, bytes.len() - r.len()))
+    }
+
+    /// `ConnectionId::encode_long`
+    pub fn cid_encode_long(cid: &ConnectionId, out: &mut Vec<u8>) {
+        cid.encode_long(out)
+    }
+
+    // ---- frames ----
+
+    /// Plain-data mirror of the crate-private `frame::Frame`
+    #[derive(Debug, Clone, PartialEq, Eq)]
+    pub enum VFrame {
+        Padding,
+        Ping,
+        /// `ranges`: inclusive (lo, hi), descending; the first one ends at `largest`
+        Ack { largest: u64, delay: u64, ranges: Vec<(u64, u64)>, ecn: Option<(u64, u64, u64)> },
+        ResetStream { id: u64, code: u64, final_size: u64 },
+        StopSending { id: u64, code: u64 },
+        Crypto { offset: u64, data: Vec<u8> },
+        NewToken { token: Vec<u8> },
+        Stream { id: u64, offset: u64, fin: bool, data: Vec<u8> },
+        MaxData(u64),
+        MaxStreamData { id: u64, max: u64 },
+        MaxStreams { bidi: bool, max: u64 },
+        DataBlocked(u64),
+        StreamDataBlocked { id: u64, limit: u64 },
+        StreamsBlocked { bidi: bool, limit: u64 },
+        NewConnectionId { seq: u64, retire_prior_to: u64, cid: Vec<u8>, reset_token: [u8; 16] },
+        RetireConnectionId(u64),
+        PathChallenge(u64),
+        PathResponse(u64),
+        /// `frame_type` 0 stands for "none"
+        ConnectionClose { code: u64, frame_type: u64, reason: Vec<u8> },
+        ApplicationClose { code: u64, reason: Vec<u8> },
+        HandshakeDone,
+        AckFrequency { seq: u64, threshold: u64, max_ack_delay: u64, reordering: u64 },
+        ImmediateAck,
+        Datagram { data: Vec<u8> },
+    }
+
+    fn ft_value(t: FrameType) -> u64 {
+        let mut b = Vec::with_capacity(8);
+        t.encode(&mut b);
+        (&b[..]).get_var().unwrap()
+    }
+
+    fn ft_make(v: u64) -> FrameType {
+        let mut b = Vec::with_capacity(8);
+        b.write_var(v);
+        FrameType::decode(&mut &b[..]).unwrap()
+    }
+
+    fn code_make(v: u64) -> Code {
+        let mut b = Vec::with_capacity(8);
+        b.write_var(v);
+        Code::decode(&mut &b[..]).unwrap()
+    }
+
+    fn vi(v: u64) -> VarInt {
+        VarInt::from_u64(v).expect("verif: value must be < 2^62")
+    }
+
+    fn sid(v: u64) -> StreamId {
+        StreamId::from(vi(v))
+    }
+
+    fn mirror(f: Frame) -> VFrame {
+        match f {
+            Frame::Padding => VFrame::Padding,
+            Frame::Ping => VFrame::Ping,
+            Frame::Ack(a) => VFrame::Ack {
+                largest: a.largest,
+                delay: a.delay,
+                ranges: a.iter().map(|r| (*r.start(), *r.end())).collect(),
+                ecn: a.ecn.map(|e| (e.ect0, e.ect1, e.ce)),
+            },
+            Frame::ResetStream(r) => VFrame::ResetStream {
+                id: r.id.into(),
+                code: r.error_code.into_inner(),
+                final_size: r.final_offset.into_inner(),
+            },
+            Frame::StopSending(s) => {
+                VFrame::StopSending { id: s.id.into(), code: s.error_code.into_inner() }
+            }
+            Frame::Crypto(c) => VFrame::Crypto { offset: c.offset, data: c.data.to_vec() },
+            Frame::NewToken(t) => VFrame::NewToken { token: t.token.to_vec() },
+            Frame::Stream(s) => VFrame::Stream {
+                id: s.id.into(),
+                offset: s.offset,
+                fin: s.fin,
+                data: s.data.to_vec(),
+            },
+            Frame::MaxData(v) => VFrame::MaxData(v.into_inner()),
+            Frame::MaxStreamData { id, offset } => {
+                VFrame::MaxStreamData { id: id.into(), max: offset }
+            }
+            Frame::MaxStreams { dir, count } => {
+                VFrame::MaxStreams { bidi: dir == Dir::Bi, max: count }
+            }
+            Frame::DataBlocked { offset } => VFrame::DataBlocked(offset),
+            Frame::StreamDataBlocked { id, offset } => {
+                VFrame::StreamDataBlocked { id: id.into(), limit: offset }
+            }
+            Frame::StreamsBlocked { dir, limit } => {
+                VFrame::StreamsBlocked { bidi: dir == Dir::Bi, limit }
+            }
+            Frame::NewConnectionId(n) => {
+                let mut reset_token = [0; 16];
+                reset_token.copy_from_slice(&n.reset_token);
+                VFrame::NewConnectionId {
+                    seq: n.sequence,
+                    retire_prior_to: n.retire_prior_to,
+                    cid: n.id.to_vec(),
+                    reset_token,
+                }
+            }
+            Frame::RetireConnectionId { sequence } => VFrame::RetireConnectionId(sequence),
+            Frame::PathChallenge(t) => VFrame::PathChallenge(t),
+            Frame::PathResponse(t) => VFrame::PathResponse(t),
+            Frame::Close(frame::Close::Connection(c)) => VFrame::ConnectionClose {
+                code: c.error_code.into(),
+                frame_type: c.frame_type.map_or(0, ft_value),
+                reason: c.reason.to_vec(),
+            },
+            Frame::Close(frame::Close::Application(c)) => VFrame::ApplicationClose {
+                code: c.error_code.into_inner(),
+                reason: c.reason.to_vec(),
+            },
+            Frame::Datagram(d) => VFrame::Datagram { data: d.data.to_vec() },
+            Frame::AckFrequency(a) => VFrame::AckFrequency {
+                seq: a.sequence.into_inner(),
+                threshold: a.ack_eliciting_threshold.into_inner(),
+                max_ack_delay: a.request_max_ack_delay.into_inner(),
+                reordering: a.reordering_threshold.into_inner(),
+            },
+            Frame::ImmediateAck => VFrame::ImmediateAck,
+            Frame::HandshakeDone => VFrame::HandshakeDone,
+        }
+    }
+
+    /// Result of driving `frame::Iter` over a payload
+    #[derive(Debug, Clone, PartialEq, Eq)]
+    pub struct FramesDecoded {
+        /// Frames yielded before the end of the payload or the first error
+        pub frames: Vec<VFrame>,
+        /// The error that ended the iteration, if any (`Iter::new` or `InvalidFrame`)
+        pub error: Option<String>,
+        /// Every frame kept the invariants the connection relies on (`Frame::ty()` callable)
+        pub tys: Vec<u64>,
+    }
+
+    /// Drive the library's `frame::Iter` over `payload`
+    pub fn frames_decode(payload: Bytes) -> FramesDecoded {
+        let mut out = FramesDecoded { frames: Vec::new(), error: None, tys: Vec::new() };
+        let iter = match frame::Iter::new(payload) {
+            Ok(i) => i,
+            Err(e) => {
+                out.error = Some(format!("{e}"));
+                return out;
+            }
+        };
+        for r in iter {
+            match r {
+                Ok(f) => {
+                    out.tys.push(ft_value(f.ty()));
+                    let _ = f.is_ack_eliciting();
+                    out.frames.push(mirror(f));
+                }
+                Err(e) => {
+                    out.error = Some(format!("{}: {}", e.ty.map_or(u64::MAX, ft_value), e.reason));
+                    break;
+                }
+            }
+        }
+        out
+    }
+
+    /// Encoder options the library chooses per packet
+    #[derive(Debug, Clone, Copy)]
+    pub struct EncOpts {
+        /// STREAM: write an explicit length (false = extends to the end of the packet)
+        pub stream_len: bool,
+        /// DATAGRAM: write an explicit length
+        pub datagram_len: bool,
+        /// CONNECTION_CLOSE / APPLICATION_CLOSE: space available (the reason is truncated to fit)
+        pub close_max_len: usize,
+    }
+
+    /// Encode one frame with the library's own encoder for that frame
+    pub fn frame_encode(f: &VFrame, o: EncOpts, out: &mut Vec<u8>) {
+        match f {
+            VFrame::Padding => out.write(FrameType::PADDING),
+            VFrame::Ping => out.write(FrameType::PING),
+            VFrame::Ack { delay, ranges, ecn, .. } => {
+                let mut set = ArrayRangeSet::new();
+                for &(lo, hi) in ranges {
+                    set.insert(lo..hi + 1);
+                }
+                let ecn = ecn.map(|(ect0, ect1, ce)| frame::EcnCounts { ect0, ect1, ce });
+                frame::Ack::encode(*delay, &set, ecn.as_ref(), out);
+            }
+            VFrame::ResetStream { id, code, final_size } => frame::ResetStream {
+                id: sid(*id),
+                error_code: vi(*code),
+                final_offset: vi(*final_size),
+            }
+            .encode(out),
+            VFrame::StopSending { id, code } => {
+                frame::StopSending { id: sid(*id), error_code: vi(*code) }.encode(out)
+            }
+            VFrame::Crypto { offset, data } => {
+                frame::Crypto { offset: *offset, data: Bytes::copy_from_slice(data) }.encode(out)
+            }
+            VFrame::NewToken { token } => {
+                let t = frame::NewToken { token: Bytes::copy_from_slice(token) };
+                let before = out.len();
+                t.encode(out);
+                assert_eq!(out.len() - before, t.size(), "NewToken::size disagrees with encode");
+            }
+            VFrame::Stream { id, offset, fin, data } => {
+                frame::StreamMeta {
+                    id: sid(*id),
+                    offsets: *offset..*offset + data.len() as u64,
+                    fin: *fin,
+                }
+                .encode(o.stream_len, out);
+                out.put_slice(data);
+            }
+            VFrame::MaxData(v) => {
+                out.write(FrameType::MAX_DATA);
+                out.write(vi(*v));
+            }
+            VFrame::MaxStreamData { id, max } => {
+                out.write(FrameType::MAX_STREAM_DATA);
+                out.write(sid(*id));
+                out.write_var(*max);
+            }
+            VFrame::MaxStreams { bidi, max } => {
+                out.write(if *bidi {
+                    FrameType::MAX_STREAMS_BIDI
+                } else {
+                    FrameType::MAX_STREAMS_UNI
+                });
+                out.write_var(*max);
+            }
+            // The library never sends DATA_BLOCKED / STREAM_DATA_BLOCKED; written with the same
+            // primitives it uses for the sibling frames so that its decoder can be exercised.
+            VFrame::DataBlocked(v) => {
+                out.write(FrameType::DATA_BLOCKED);
+                out.write_var(*v);
+            }
+            VFrame::StreamDataBlocked { id, limit } => {
+                out.write(FrameType::STREAM_DATA_BLOCKED);
+                out.write(sid(*id));
+                out.write_var(*limit);
+            }
+            VFrame::StreamsBlocked { bidi, limit } => {
+                out.write(if *bidi {
+                    FrameType::STREAMS_BLOCKED_BIDI
+                } else {
+                    FrameType::STREAMS_BLOCKED_UNI
+                });
+                out.write_var(*limit);
+            }
+            VFrame::NewConnectionId { seq, retire_prior_to, cid, reset_token } => {
+                frame::NewConnectionId {
+                    sequence: *seq,
+                    retire_prior_to: *retire_prior_to,
+                    id: ConnectionId::new(cid),
+                    reset_token: ResetToken::from(*reset_token),
+                }
+                .encode(out)
+            }
+            VFrame::RetireConnectionId(s) => {
+                out.write(FrameType::RETIRE_CONNECTION_ID);
+                out.write_var(*s);
+            }
+            VFrame::PathChallenge(t) => {
+                out.write(FrameType::PATH_CHALLENGE);
+                out.write(*t);
+            }
+            VFrame::PathResponse(t) => {
+                out.write(FrameType::PATH_RESPONSE);
+                out.write(*t);
+            }
+            VFrame::ConnectionClose { code, frame_type, reason } => frame::Close::Connection(
+                frame::ConnectionClose {
+                    error_code: code_make(*code),
+                    frame_type: if *frame_type == 0 { None } else { Some(ft_make(*frame_type)) },
+                    reason: Bytes::copy_from_slice(reason),
+                },
+            )
+            .encode(out, o.close_max_len),
+            VFrame::ApplicationClose { code, reason } => {
+                frame::Close::Application(frame::ApplicationClose {
+                    error_code: vi(*code),
+                    reason: Bytes::copy_from_slice(reason),
+                })
+                .encode(out, o.close_max_len)
+            }
+            VFrame::HandshakeDone => out.write(FrameType::HANDSHAKE_DONE),
+            VFrame::AckFrequency { seq, threshold, max_ack_delay, reordering } => {
+                frame::AckFrequency {
+                    sequence: vi(*seq),
+                    ack_eliciting_threshold: vi(*threshold),
+                    request_max_ack_delay: vi(*max_ack_delay),
+                    reordering_threshold: vi(*reordering),
+                }
+                .encode(out)
+            }
+            VFrame::ImmediateAck => out.write(FrameType::IMMEDIATE_ACK),
+            VFrame::Datagram { data } => {
+                let d = frame::Datagram { data: Bytes::copy_from_slice(data) };
+                let before = out.len();
+                d.encode(o.datagram_len, out);
+                assert_eq!(
+                    out.len() - before,
+                    d.size(o.datagram_len),
+                    "Datagram::size disagrees with encode"
+                );
+            }
+        }
+    }
+
+    // ---- packet headers ----
+
+    /// Identity header protection with the usual 16-byte sample
+    pub struct NullHeaderKey;
+    impl crypto::HeaderKey for NullHeaderKey {
+        fn decrypt(&self, _: usize, _: &mut [u8]) {}
+        fn encrypt(&self, _: usize, _: &mut [u8]) {}
+        fn sample_size(&self) -> usize {
+            16
+        }
+    }
+
+    /// Plain-data mirror of the crate-private `packet::Header`
+    #[derive(Debug, Clone, PartialEq, Eq)]
+    pub enum VHeader {
+        Initial { dcid: Vec<u8>, scid: Vec<u8>, token: Vec<u8>, pn_len: usize, pn: u64, version: u32 },
+        /// `zero_rtt` false = Handshake
+        Long { zero_rtt: bool, dcid: Vec<u8>, scid: Vec<u8>, pn_len: usize, pn: u64, version: u32 },
+        Retry { dcid: Vec<u8>, scid: Vec<u8>, version: u32 },
+        Short { spin: bool, key_phase: bool, dcid: Vec<u8>, pn_len: usize, pn: u64 },
+        VersionNegotiate { random: u8, dcid: Vec<u8>, scid: Vec<u8> },
+    }
+
+    fn header_make(h: &VHeader) -> Header {
+        match h {
+            VHeader::Initial { dcid, scid, token, pn_len, pn, version } => {
+                Header::Initial(InitialHeader {
+                    dst_cid: ConnectionId::new(dcid),
+                    src_cid: ConnectionId::new(scid),
+                    token: Bytes::copy_from_slice(token),
+                    number: pn_make(*pn_len, *pn),
+                    version: *version,
+                })
+            }
+            VHeader::Long { zero_rtt, dcid, scid, pn_len, pn, version } => Header::Long {
+                ty: if *zero_rtt { LongType::ZeroRtt } else { LongType::Handshake },
+                dst_cid: ConnectionId::new(dcid),
+                src_cid: ConnectionId::new(scid),
+                number: pn_make(*pn_len, *pn),
+                version: *version,
+            },
+            VHeader::Retry { dcid, scid, version } => Header::Retry {
+                dst_cid: ConnectionId::new(dcid),
+                src_cid: ConnectionId::new(scid),
+                version: *version,
+            },
+            VHeader::Short { spin, key_phase, dcid, pn_len, pn } => Header::Short {
+                spin: *spin,
+                key_phase: *key_phase,
+                dst_cid: ConnectionId::new(dcid),
+                number: pn_make(*pn_len, *pn),
+            },
+            VHeader::VersionNegotiate { random, dcid, scid } => Header::VersionNegotiate {
+                random: *random,
+                dst_cid: ConnectionId::new(dcid),
+                src_cid: ConnectionId::new(scid),
+            },
+        }
+    }
+
+    fn header_mirror(h: &Header) -> VHeader {
+        match h {
+            Header::Initial(i) => {
+                let (pn_len, pn) = pn_parts(i.number);
+                VHeader::Initial {
+                    dcid: i.dst_cid.to_vec(),
+                    scid: i.src_cid.to_vec(),
+                    token: i.token.to_vec(),
+                    pn_len,
+                    pn,
+                    version: i.version,
+                }
+            }
+            Header::Long { ty, dst_cid, src_cid, number, version } => {
+                let (pn_len, pn) = pn_parts(*number);
+                VHeader::Long {
+                    zero_rtt: *ty == LongType::ZeroRtt,
+                    dcid: dst_cid.to_vec(),
+                    scid: src_cid.to_vec(),
+                    pn_len,
+                    pn,
+                    version: *version,
+                }
+            }
+            Header::Retry { dst_cid, src_cid, version } => VHeader::Retry {
+                dcid: dst_cid.to_vec(),
+                scid: src_cid.to_vec(),
+                version: *version,
+            },
+            Header::Short { spin, key_phase, dst_cid, number } => {
+                let (pn_len, pn) = pn_parts(*number);
+                VHeader::Short {
+                    spin: *spin,
+                    key_phase: *key_phase,
+                    dcid: dst_cid.to_vec(),
+                    pn_len,
+                    pn,
+                }
+            }
+            Header::VersionNegotiate { random, dst_cid, src_cid } => VHeader::VersionNegotiate {
+                random: *random,
+                dcid: dst_cid.to_vec(),
+                scid: src_cid.to_vec(),
+            },
+        }
+    }
+
+    /// Append one packet to `out` exactly as the library's packet builder does: `Header::encode`,
+    /// then the body bytes (for protected packets `body` stands for payload + AEAD tag), then
+    /// `PartialEncode::finish` with identity header protection and no packet key. Returns the
+    /// header length reported by the encoder.
+    pub fn packet_encode(h: &VHeader, body: &[u8], out: &mut Vec<u8>) -> usize {
+        let header = header_make(h);
+        let start = out.len();
+        let partial = header.encode(out);
+        debug_assert_eq!(partial.start, start);
+        let header_len = partial.header_len;
+        out.put_slice(body);
+        partial.finish(&mut out[start..], &NullHeaderKey, None);
+        let _ = (header.is_protected(), header.number(), header.space(), header.key_phase());
+        header_len
+    }
+
+    /// One decoded packet
+    #[derive(Debug, Clone, PartialEq, Eq)]
+    pub struct PacketDecoded {
+        pub header: VHeader,
+        /// Header bytes as split off by the decoder
+        pub header_data: Vec<u8>,
+        pub payload: Vec<u8>,
+        /// `PartialDecode::len` (length of this packet within the datagram)
+        pub len: usize,
+        /// `PartialDecode::dst_cid` before header-protection removal
+        pub early_dst_cid: Vec<u8>,
+        pub reserved_bits_valid: bool,
+        /// Bytes following this packet in the datagram (coalesced packets)
+        pub rest: Option<Vec<u8>>,
+    }
+
+    /// `PartialDecode::new` + `finish` with identity header protection. The first error is
+    /// reported with the stage it occurred in.
+    pub fn packet_decode(
+        datagram: &[u8],
+        local_cid_len: usize,
+        supported_versions: &[u32],
+        grease_quic_bit: bool,
+    ) -> Result<PacketDecoded, String> {
+        let (partial, rest) = PartialDecode::new(
+            BytesMut::from(datagram),
+            &FixedLengthConnectionIdParser::new(local_cid_len),
+            supported_versions,
+            grease_quic_bit,
+        )
+        .map_err(|e| format!("new: {e}"))?;
+        let len = partial.len();
+        let early_dst_cid = partial.dst_cid().to_vec();
+        let _ = (
+            partial.has_long_header(),
+            partial.is_initial(),
+            partial.is_0rtt(),
+            partial.space(),
+            partial.initial_header().map(|h| h.token_pos.clone()),
+            partial.data().len(),
+        );
+        let packet = partial.finish(Some(&NullHeaderKey)).map_err(|e| format!("finish: {e}"))?;
+        let _ = (packet.header.dst_cid(), packet.header.has_frames(), packet.header.is_short());
+        Ok(PacketDecoded {
+            header: header_mirror(&packet.header),
+            reserved_bits_valid: packet.reserved_bits_valid(),
+            header_data: packet.header_data.to_vec(),
+            payload: packet.payload.to_vec(),
+            len,
+            early_dst_cid,
+            rest: rest.map(|r| r.to_vec()),
+        })
+    }
+
+    // ---- transport parameters ----
+
+    pub use crate::transport_parameters::verif_tp::*;
+    // ---- tokens ----
+    pub use crate::token::verif_token::*;
+}
